@@ -45,7 +45,7 @@ func genExpScenario(rt *rapid.T) expScenario {
 	for i := 0; i < n; i++ {
 		at += rapid.IntRange(0, 6).Draw(rt, "gap") * 100
 		a := expAction{AtMs: at, Key: pick(rt, keys, "key"), C: rapid.IntRange(0, sc.Colls-1).Draw(rt, "c")}
-		a.K = pick(rt, []string{"Add", "ReAdd", "Set", "SetPreserve", "WriteCas", "Touch", "Touch", "GetAndTouchRaw", "GetAndTouchRaw", "WriteWithXattrs", "Update", "UpdateExp", "UpdateXattrs", "Delete", "Incr", "Reopen"}, "k")
+		a.K = pick(rt, []string{"Add", "ReAdd", "Set", "SetPreserve", "WriteCas", "Touch", "Touch", "GetAndTouchRaw", "GetAndTouchRaw", "WriteWithXattrs", "Update", "UpdateExp", "UpdateXattrs", "WriteUpdateX", "SetWithMeta", "Delete", "DeleteWithXattrs", "Remove", "Incr", "Reopen"}, "k")
 		a.TTL = pick(rt, []int{1, 1, 2, 2, 3, 4, 0, 60, 3600}, "ttl")
 		a.Abs = rapid.Bool().Draw(rt, "abs")
 		if a.K == "Reopen" && !sc.Disk {
@@ -230,6 +230,48 @@ func runExpScenario(sc expScenario, windowSec int) (res expResult) {
 			_, err = ds.Incr(a.Key, 1, 1, exp)
 			if err == nil {
 				m.live, m.deadline, wrote = true, newDeadline(), true
+			}
+		case "WriteUpdateX":
+			// body + xattr through WriteUpdateWithXattrs, the expiry coming from the callback
+			e := exp
+			_, err = ds.WriteUpdateWithXattrs(ctx, a.Key, []string{"_sync"}, 0, nil, nil, func(doc []byte, xattrs map[string][]byte, cas uint64) (sgbucket.UpdatedDoc, error) {
+				return sgbucket.UpdatedDoc{Doc: body, Xattrs: map[string][]byte{"_sync": []byte(`{"seq":2}`)}, Expiry: &e}, nil
+			})
+			if err == nil {
+				m.live, m.deadline, wrote = true, newDeadline(), true
+			}
+		case "SetWithMeta":
+			// (absolute expiries only)
+			st, _ := Observe(ds, a.Key, nil)
+			var casIn uint64
+			if st.Present {
+				casIn = st.Cas
+			}
+			abs := uint32(0)
+			if a.TTL > 0 {
+				abs = now + uint32(a.TTL)
+			}
+			err = w.RColl(0, a.C).SetWithMeta(ctx, a.Key, casIn, uint64(time.Now().UnixNano())|0x3039, abs, nil, body, sgbucket.FeedDataTypeJSON)
+			if err == nil {
+				m.live, wrote = true, true
+				m.deadline = 0
+				if a.TTL > 0 {
+					m.deadline = abs
+				}
+			}
+		case "DeleteWithXattrs", "Remove":
+			if !m.live {
+				err = fmt.Errorf("skip: not live")
+				break
+			}
+			if a.K == "Remove" {
+				st, _ := Observe(ds, a.Key, nil)
+				_, err = ds.Remove(a.Key, st.Cas)
+			} else {
+				err = ds.DeleteWithXattrs(ctx, a.Key, nil)
+			}
+			if err == nil {
+				m.live, m.deadline = false, 0
 			}
 		case "Delete":
 			err = ds.Delete(a.Key)
